@@ -27,6 +27,36 @@ CHECKS = {
         note="Assumed: std::sync::Mutex mutual exclusion (one critical section = one atomic step); poisoning recovery not modelled; plan generation is a function of the symbol count; Arc identity not observed. No axioms.",
         technique="Rocq invariant proof over all schedules + schedule-controlled correspondence",
         ref="DESIGN.md section 5, C17"),
+    "C05": dict(
+        text="partition, calculate_block_offsets, padding, create_symbols (sub-block interleave), source packet ids, decoder block sizing, unpack_sub_blocks and reassembly are modelled loop for loop; theorems for every valid (F,T,Z,N,Al) and all data: the packets are exactly the RFC 4.4.1.2 index function of the Spec (C05_source_packets_are_rfc, general N), only the tail of the last block is zero padding, payloads are exactly T bytes, ids run in order, the decoder's block sizes equal the encoder's and unpack inverts the interleave (C05_unpack_inverts_create, C05_decoder_inverts). Tie: real Encoder packets and Decoder output vs model and vs the Spec on a (F,T,Z,N,Al) grid with position-coded data, both profiles.",
+        note="Trusted: Coq kernel; Spec/Layout.v as RFC 4.4.1.2; sampled correspondence (small objects). usize/u64 ranges proved (Kt*T < 2^48). No axioms.",
+        technique="Rocq proof (loop invariants vs index-function spec) + grid correspondence",
+        ref="DESIGN.md section 5, C05"),
+    "C09": dict(
+        text="For EVERY operation list, mode and symbol size: replay on a slab is additive, homogeneous and acts column-wise (C09_replay_additive / _scalar / _columnwise), panic behaviour depends on indices only (C09_replay_shape, C09_symbol_size_irrelevant), read-out commutes (C09_read_linear); proofs by induction on the op list from the C10 field laws. Tie: perform_op/SymbolSlab of the real crate vs the model on random op lists over T residues, both profiles (debug_assert on FMA scalars modelled); metamorphic runs on the real encoder (A xor B, c*A, byte columns) as the property-level oracle.",
+        note="Trusted: Coq kernel; byte kernels modelled element-wise (C11 proves each kernel equals that); symbol_size = 0 outside the modelled domain. The lift from replay to packets uses that packets are xor-combinations of the replayed symbols (Model/Encoder.enc_into); validated end to end by the metamorphic runs. No axioms.",
+        technique="Rocq proof by induction over arbitrary op lists + metamorphic correspondence",
+        ref="DESIGN.md section 5, C09"),
+    "C11": dict(
+        text="Each of the 13 x86/portable kernels, the binary-vector kernels, to_octet_vec and the three dispatchers are modelled over a small table of intrinsic semantics; theorems for every length, scalar and content: kernel = element-wise GF(256) operation (C11_add_assign_*, C11_mulassign_*, C11_fma_*, C11_fma_binary_*), nibble-split / shuffle / srli lemmas from the C10 tables, dispatch irrelevant for every CPU feature set. Tie: every kernel is called directly through the hook (also the ones runtime dispatch never selects on this AVX-512 host) over lengths 0..257, 64 alignments, boundary scalars and adversarial contents, both profiles, and compared with the model and with an independent element-wise computation. NEON is not compiled here and not claimed.",
+        note="Trusted: Coq kernel; the transcribed semantics of ~15 Intel intrinsics (validated by the runs on this CPU, not proved); little-endian host. No axioms.",
+        technique="Rocq proof over intrinsic-level kernel models + direct per-kernel correspondence",
+        ref="DESIGN.md section 5, C11"),
+    "C12": dict(
+        text="PARTIAL (logic only). Proved: every load/store/unchecked index recorded by each kernel model lies inside its buffer for all lengths (C12_kernel_in_bounds, 14 kernels), table look-ups in bounds (C12_tables_in_bounds, C10_unchecked_in_bounds), an out-of-bounds access would surface as a model panic and never occurs (C12_kernels_never_out_of_bounds); the slab's paired borrow asserts distinct in-range indices (model of get_pair_mut, C09_replay_shape). Validated only: real kernels run with guard bytes on both sides of every buffer at 64 alignments, slab op lists against the model.",
+        note="Cannot be exhibited by the model: pointer provenance, allocator slack, compiler reordering, what the CPU does on an actual out-of-bounds access; that the recorded access lists are exactly what the Rust performs is by construction of the hand model and validated by canaries, not proved. No axioms.",
+        technique="Rocq proof of index bounds over access-list models + guard-byte validation (partial)",
+        ref="DESIGN.md section 5, C12"),
+    "C14": dict(
+        text="generate_encoding_parameters is modelled cast by cast (both the pre-fix and the repaired code); on the Spec domain D (a valid configuration exists) C14_matches_rfc: the result is the RFC 4.3 derivation for all F, mtu < 2^16, WS < 2^64 in both modes; T largest multiple, Z least, N least and existing, monotone in the budget, result accepted by the constructor; the two pre-fix defects are refuted by witnesses (C14_pinned_refuted_*), repaired in /repo by fixes a0c0f31 and 8169afc. Tie: hook + with_defaults vs model in both profiles and vs the Spec on its domain; budgets log-uniform over u64 plus KL change points and 2^32 multiples.",
+        note="Trusted: Coq kernel; translator (Table 2, default budget); Spec/Derive.v as RFC 4.3 with the crate's free choice of Al/SS; sampled correspondence. The round-trip clause of the property is covered through C01/C05 on the derived configuration. No axioms.",
+        technique="Rocq proof (model = RFC derivation on its domain) + boundary correspondence",
+        ref="DESIGN.md section 5, C14"),
+    "C15": dict(
+        text="Look-up functions, rand, deg, intermediate_tuple and enc_indices modelled statement by statement with u32/u64 widths; C15_params for all K <= 56403 via a scan lemma + 477-row sweep (K' least, S/W/P1 prime with P1 the least prime >= P, B >= 1, P >= H >= 2, L < 65536); C15_tuple_is_rfc and C15_tuple_ranges for every row and every X < 2^32; C15_no_panic_fixed / C15_enc_indices_in_range (PI loop terminates by a number-theoretic argument on the prime P1); the pre-fix overflow is characterised exactly (C15_pinned_only_two: the two reachable (K',X) pairs, found by inverting A modulo 2^32), repaired by fix 78eb5b2. Tables re-extracted every run and proved equal to the Spec snapshot. Tie: all 8 look-ups for all K (exhaustive), rand/deg/tuple/enc_indices on boundary and algebraically selected inputs, both profiles, tuples vs the Spec.",
+        note="Trusted: Coq kernel; translator (V0..V3, Table 2, P1 table, f[], multipliers); Spec/Tables_RFC.v snapshot trusted to be the RFC's tables; sampled correspondence over the 8e9 (K',X) pairs. No axioms.",
+        technique="Rocq proof (sweeps lifted + algebra over all X) + exhaustive/boundary correspondence",
+        ref="DESIGN.md section 5, C15"),
 }
 
 NOT_APPLICABLE = {
